@@ -9,11 +9,11 @@ def c04_nontrivial(inp, obs):
         return False
     tags = _c04_results(obs)
     ops = [o[0] for o in inp[1]]
-    ins_ok = any(op in (0, 8, 9, 17) and t == 0 for op, t in zip(ops, tags))
+    ins_ok = any(op in (0, 8, 9, 17, 19) and t == 0 for op, t in zip(ops, tags))
     err = any(t in (4, 5) for t in tags)
     return ins_ok and err
 
-OPN = ['push', 'pop', 'pop2', 'pop3', 'top', 'top2', 'top3', 'discard', 'push_many', 'try_extend', 'set_max', 'size', 'is_empty', 'is_full', 'max', 'try_extend(iterator without upper size hint)', 'push_many(exact-size iterator of claimed length)', 'try_extend_from_slice', 'try_extend(iterator that resumes after its first None)']
+OPN = ['push', 'pop', 'pop2', 'pop3', 'top', 'top2', 'top3', 'discard', 'push_many', 'try_extend', 'set_max', 'size', 'is_empty', 'is_full', 'max', 'try_extend(iterator without upper size hint)', 'push_many(exact-size iterator of claimed length)', 'try_extend_from_slice', 'try_extend(iterator that resumes after its first None)', 'try_extend(iterator with a loose upper size hint)']
 RESN = {0: 'ok', 1: 'values', 2: 'number', 3: 'bool', 4: 'underflow', 5: 'overflow', 9: 'panic'}
 
 def c04_bucket(inp, obs):
@@ -147,6 +147,8 @@ def push_describe(inp, obs):
         st[0], ' '.join(instr_name(p) for p in st[1]), st[2], st[3], st[4], st[5], st[6], st[7], st[8], st[9])
     if inp[0] == 1:
         return 'perform %s on state {%s}; stacks are top first' % (instr_name(inp[3]), d)
+    if inp[0] == 3:
+        return 'perform PrintChar<U+%04X> on state {%s}; stacks are top first' % (inp[3][0], d)
     if inp[0] == 2:
         return 'run_to_completion, look at the printed output (stdout_string on the state itself), run_to_completion again - of state {%s}; stacks are top first' % d
     return 'run_to_completion of state {%s}; stacks are top first' % d
@@ -162,9 +164,11 @@ def _walk_instrs(t, acc):
                 _walk_instrs(t[1], acc)
 
 def push_bucket(inp, obs):
-    out = ['mode=%s' % ('run' if inp[0] == 0 else 'two-phase run' if inp[0] == 2 else 'perform')]
+    out = ['mode=%s' % ('run' if inp[0] == 0 else 'two-phase run' if inp[0] == 2 else 'PrintChar' if inp[0] == 3 else 'perform')]
     cls = obs[0] if isinstance(obs, list) and obs else None
     out.append('outcome=%s' % {0: 'ok', 1: 'recoverable', 2: 'fatal', -1: 'panic', -2: 'abort', -3: 'hang'}.get(cls, cls))
+    if inp[0] == 3:
+        return out
     if inp[0] == 1:
         kind = obs[2] if isinstance(obs, list) and len(obs) > 2 else 0
         out.append('%s:%s' % (instr_name(inp[3]).split('(')[0] if inp[3][0] != 100 else 'Block',
@@ -177,13 +181,15 @@ def push_nontrivial(inp, obs):
     # single step: anything but a no-operand success is informative; run: the program executed at least 3 elements
     if not isinstance(obs, list) or not obs:
         return False
-    if inp[0] == 1:
+    if inp[0] in (1, 3):
         return True
     return len(inp[2][1]) >= 3 and inp[2][9] >= 3
 
 def push_classify(inp, obs):
     if isinstance(obs, list) and obs and obs[0] in (-2, -3):
         return 'abort-or-hang'
+    if inp[0] == 3:
+        return 'perform:PrintChar'
     if inp[0] == 1:
         return 'perform:' + instr_name(inp[3]).split('(')[0]
     acc = []
@@ -209,7 +215,7 @@ _PUSH_COMMON = dict(corr='CorrPush', show='(show_cases show [])', post_batch=pus
 PROPS['C01'] = dict(_PUSH_COMMON,
     judge='(judge_cases judge_c01)',
     coq_targets=['theories/Props/C01.vo', 'theories/Corr/CorrPush.vo'],
-    rule='(a) every non-literal instruction applied (Instruction::perform) to states whose operand positions run over boundary value lists (23 i64 values incl. MIN/MAX/2^32/sqrt boundaries; 22 f64 bit patterns incl. NaNs, infinities, signed zeros, subnormal, 2^53+1, i64 range edges): sampled pairs in the quick tier, all pairs in the thorough tier; (b) literals/blocks/input variables as single steps; (c) random nested programs (5-45 elements, nested blocks and exec literals to depth 5, bound input variables, random initial stacks, capacities from exactly-full upwards, step limits 0-150/400) through State::run_to_completion; (d) two-phase runs: a printing program under every step limit 0..14, and every fifth random program, is run until its limit, its printed output is LOOKED AT on the state itself (stdout_string), and it is run on from there - compared with running the model twice (looking at the output must not disturb it). All four stacks, capacities, printed bytes and the outcome class/error kind are compared with Spec/Run evaluated in coqc. Non-trivial: every single-step case; a run whose program has >= 3 elements and step limit >= 3. Distinct = distinct inputs.',
+    rule='(a) every non-literal instruction applied (Instruction::perform) to states whose operand positions run over boundary value lists (23 i64 values incl. MIN/MAX/2^32/sqrt boundaries; 22 f64 bit patterns incl. NaNs, infinities, signed zeros, subnormal, 2^53+1, i64 range edges): sampled pairs in the quick tier, all pairs in the thorough tier; (b) literals/blocks/input variables as single steps; (c) random nested programs (5-45 elements, nested blocks and exec literals to depth 5, bound input variables, random initial stacks, capacities from exactly-full upwards, step limits 0-150/400) through State::run_to_completion; (d) two-phase runs: a printing program under every step limit 0..14, and every fifth random program, is run until its limit, its printed output is LOOKED AT on the state itself (stdout_string), and it is run on from there - compared with running the model twice (looking at the output must not disturb it); (e) PrintChar at characters beyond ASCII (U+00E9, U+03BB, U+1F980, U+0080, U+00FF, ..): the character in UTF-8 is appended to the output. All four stacks, capacities, printed bytes and the outcome class/error kind are compared with Spec/Run evaluated in coqc. Non-trivial: every single-step case; a run whose program has >= 3 elements and step limit >= 3. Distinct = distinct inputs.',
     trusted=['Rust std f64 Display as the float-to-text oracle (second harness pass)', 'primitive floats of the Coq kernel (hardware binary64) for float instructions'],
     assumptions=['when an operand is missing AND the destination is full either report is accepted (run_alts)', 'PrintString contents limited to the case string table'],
     level_text='Theorems (Props/C01.v) over the executable semantics table Spec.v and the interpreter Run.v: per-clause theorems for ALL operand values (top-op-second arithmetic, /0 -> 1, %0 -> 0, overflow skips, saturating negate/abs, mathematical predicates that consume all operands incl. parity of negatives, conditional action tables, block unfolding order, checked_pow = mathematical power with range test). The instruction set is also modelled as the Rust composes it (Impl.v: pops, pushes, pre-checks, discards) and proved equal to the table on well-formed states, as is the interpreter loop over it (C01_refine, C01_run). The real PushState is tied to the table by differential execution of every instruction on boundary values and of random nested programs, judged inside coqc.',
@@ -378,8 +384,8 @@ PROPS['C14'] = dict(
 # ---------------------------------------------------------------------------
 # C17
 C17_TRAITS = ['DynSelector', 'DynMutator', 'DynRecombinator', 'DynOperator', 'DynChildMaker']
-C17_IMPLS = [['Best', 'Worst', 'Random', 'Tournament(2)', 'Tournament(5)', 'WeightedPair(Best:1, Tournament(5):1)', 'draw-then-fail selector'], ['WithRate(0.3)', 'WithOneOverLength', 'failing mutator'],
-             ['UniformXo', 'TwoPointXo', 'failing recombinator'], ['AddWord', 'AddWord.then(AddWord)', 'failing operator', 'Mutate(WithRate(0.5))', 'operator failing with an error that has a source'],
+C17_IMPLS = [['Best', 'Worst', 'Random', 'Tournament(2)', 'Tournament(5)', 'WeightedPair(Best:1, Tournament(5):1)', 'draw-then-fail selector', 'forty selections at the same time through one shared Arc<dyn DynSelector + Send + Sync>'], ['WithRate(0.3)', 'WithOneOverLength', 'failing mutator'],
+             ['UniformXo', 'TwoPointXo', 'failing recombinator'], ['AddWord', 'AddWord.then(AddWord)', 'failing operator', 'Mutate(WithRate(0.5))', 'operator failing with an error that has a source', '400 failing applications, then one more'],
              ['select+word', 'two parents', 'failing child maker']]
 C17_PTR = ['&', '&mut', 'RefMut', 'Box', 'Arc', 'Rc', 'Ref']
 C17_AUTO = ['', '+Send', '+Sync', '+Send+Sync']
@@ -671,7 +677,7 @@ PROPS['C12'] = dict(_MUT_COMMON, judge='(judge_cases judge_c12)', post_batch=mak
 C18_FL = ['Vec into->T', '&Vec into->&T', '&Vec into->T', 'Vec to->T', 'Vec to->&T', '[T;N] into->T', '&[T;N] into->&T', '&[T;N] into->T', '[T;N] to->T', '[T;N] to->&T',
           '&[T] into->&T', '&[T] into->T', '[T] to->&T', '[T] to->T', 'uniform_distribution_of!']
 C18_K = ['Vec collection', 'Bitstring::random', 'Bitstring::random_with_probability', 'Plushy collection', 'population of scored individuals', '', '', 'choice over zero-sized members', 'choice over one-byte members', 'collection of zero-sized elements',
-         'Bitstring::random through two positions', 'Bitstring::random_with_probability, all bits pooled']
+         'Bitstring::random through two positions', 'Bitstring::random_with_probability, all bits pooled', 'collection of 8 KiB elements']
 def c18_describe(inp, obs):
     p = inp[2]
     if p[0] == 5:
@@ -743,10 +749,10 @@ C16_OPS = ['Best', 'Worst', 'Random', 'Tournament(2)', 'Lexicase(2)', 'WeightedP
            'DynWeighted[Best:1, Worst:2, Random:3] built in one go vs used between its builder calls', 'DynWeighted[Best:0, Worst:2, Random:3] built in one go vs used between its builder calls',
            'collection generator Vec<i64> of 20000+ elements (hash)', 'Bitstring::random of 20000+ bits (hash)', 'Plushy collection of 20000+ genes (hash)',
            'Lexicase(2) whose past is the same population object with other contents (the next generation written into the same variable)',
-           'Best on 10000 individuals in three tie classes', 'Worst on 10000 individuals in three tie classes', 'Tournament(3) on 10000 individuals in three tie classes']
+           'Best on 10000 individuals in three tie classes', 'Worst on 10000 individuals in three tie classes', 'Tournament(3) on 10000 individuals in three tie classes', 'Lexicase(100) on 7 individuals x 100 cases']
 def c16_describe(inp, obs):
     if inp[0] == 0:
-        return '%s, seed %d, data %s; observed [run from a fresh value, run from another fresh value, run from an already-used value], each [[3 results], next generator word]' % (C16_OPS[inp[1]], inp[2], inp[3])
+        return '%s, seed %d, data %s; observed [run from a fresh value, the same on another thread, an already-used value inside a rayon pool, the used value again on the calling thread], each [[3 results], next generator word]' % (C16_OPS[inp[1]], inp[2], inp[3])
     if inp[0] == 3:
         return 'two distinct input names that collide under a common short hash (pair %d of the table in harness/src/c16.rs) bound to 11 and 22 and read in that order, declared in either order; observed per order: the int stack, top first' % inp[1]
     if inp[0] == 2:
@@ -769,7 +775,7 @@ PROPS['C16'] = dict(
     describe=c16_describe, no_shrink=True, nontrivial=lambda i, o: True,
     classify=lambda i, o: ('op:%s' % C16_OPS[i[1]]) if i[0] == 0 else ('push-input-order' if i[0] == 1 else 'push-many-names' if i[0] == 2 else 'push-colliding-names'),
     bucket=lambda i, o: [('op=%s' % C16_OPS[i[1]]) if i[0] == 0 else ('push permutations=%d' % i[3] if i[0] == 1 else 'push inputs=%d' % i[1] if i[0] == 2 else 'push colliding names')],
-    rule='47 selectors, mutators, recombinators, generators and compositions (selectors also on populations of 8..47 distinct individuals with many ties - where hash order or a cache could decide; vector genomes that are equal as values but differ in spare capacity) exported by the three crates (table in harness/src/c16.rs) x 12 (quick) / 200 (thorough) seeds: a counting loop evaluated for 1.2 million steps (about a second of wall-clock time) must equal the model run; three consecutive calls from (A) a fresh operator value, (B) another fresh value with a generator cloned from the same seed - built and used on ANOTHER THREAD -, (C) a value that was already used five times with another generator, run inside a rayon pool of three workers - results and the next word of the generator must all coincide (a consult of the thread RNG, global state, or a cache inside the operator shows up as a difference); one entry interleaves two operators on one generator; three entries generate collections of 20000+ elements and three select from 10000 individuals with many ties (sizes at which a blocked or parallel implementation would kick in; results compared through a hash); five entries give the used value a PAST of other kinds of calls (a Lexicase value whose past is the same population object with other contents; (UMAD with distinct empty-genome rate on empty / non-empty genomes in the opposite order; a dynamic weighted selector that was used between its builder calls, also with a zero first weight)). Push: programs reading 1, 3, 1000 and 3000 (thorough: 20000) distinctly named inputs, declared forwards, backwards and shuffled, against the closed-form result (length and hash of the int stack); 15 pairs of distinct names that collide under common short hash functions (FNV-1a 32, CRC-32, Java hashCode, djb2) or differ only in case / spacing / Unicode normalisation, bound to different values and declared in either order; 80 (quick) / 600 (thorough) random nested programs with 2-3 bound inputs, evaluated under EVERY permutation of the input declarations and twice from each built state: all runs must coincide and equal the model run (stacks, output bytes, outcome).',
+    rule='48 selectors, mutators, recombinators, generators and compositions (selectors also on populations of 8..47 distinct individuals with many ties - where hash order or a cache could decide; vector genomes that are equal as values but differ in spare capacity) exported by the three crates (table in harness/src/c16.rs) x 12 (quick) / 200 (thorough) seeds: a counting loop evaluated for 1.2 million steps (about a second of wall-clock time) must equal the model run; three consecutive calls from (A) a fresh operator value, (B) another fresh value with a generator cloned from the same seed - built and used on ANOTHER THREAD -, (C) a value that was already used five times with another generator, run inside a rayon pool of three workers, and (D) the used value once more on the calling thread, where run A, the warm-up and earlier cases of the process have run - results and the next word of the generator must all coincide (a consult of the thread RNG, global state, or a cache inside the operator shows up as a difference); one entry interleaves two operators on one generator; three entries generate collections of 20000+ elements and three select from 10000 individuals with many ties (sizes at which a blocked or parallel implementation would kick in; results compared through a hash); five entries give the used value a PAST of other kinds of calls (a Lexicase value whose past is the same population object with other contents; (UMAD with distinct empty-genome rate on empty / non-empty genomes in the opposite order; a dynamic weighted selector that was used between its builder calls, also with a zero first weight)). Push: programs reading 1, 3, 1000 and 3000 (thorough: 20000) distinctly named inputs, declared forwards, backwards and shuffled, against the closed-form result (length and hash of the int stack); 15 pairs of distinct names that collide under common short hash functions (FNV-1a 32, CRC-32, Java hashCode, djb2) or differ only in case / spacing / Unicode normalisation, bound to different values and declared in either order; 80 (quick) / 600 (thorough) random nested programs with 2-3 bound inputs, evaluated under EVERY permutation of the input declarations and twice from each built state, and once with the program built on another thread than the one that declares the inputs: all runs must coincide and equal the model run (stacks, output bytes, outcome).',
     trusted=['that equal observable results and an equal next word mean equal generator states (SplitMix64 state = one word)'],
     assumptions=['"the code is a function of its arguments" is decided code-against-code: a Gallina model is deterministic by construction and cannot carry that claim'],
     level_text='Theorems (Props/C16.v): named inputs resolve independently of declaration order (lookup is invariant under permutation of a duplicate-free list) and therefore the whole evaluation of any program is - same stacks, output, limits, outcome, step count; a program that reads any number of distinctly named integer inputs once each ends, for every declaration order, with exactly their values on the int stack (C16_reads_any_declaration_order - the closed form the many-names cases are compared with; for up to 3000 inputs the judge also runs the interpreter model on that program); combinators have no hidden state (the threaded state after a composition is what its parts left). Stream locality: an operator that uses only the generator it is handed depends only on the consumed stretch of the stream; drawing is local and every combinator preserves locality, so equal generator states give equal results and equal positions for every composition (C16_combinators_preserve_locality, C16_equal_generator_states_equal_results). The remaining half - no randomness or state other than the generator handed in - is decided by double runs from cloned generators on fresh and on used operator values, and by permuting input declarations.',
@@ -836,6 +842,10 @@ def c19_gen_extra(tier, seed):
                 [[1, k, 3], [2, k, [1]], [0, 5], [4]] + tail,
                 [[1, k, 3], [0, 5], [2, k, [1]], [4]] + tail,
                 [[2, k, [1]], [0, 5], [4]] + tail,
+                # values, then the program, then a size change of the stack that holds values (the markers must survive with_program)
+                [[0, 5], [2, k, [1]], [3, [101]], [1, k, 9]] + tail,
+                [[0, 5], [2, k, [1]], [4], [1, k, 9]] + tail,
+                [[0, 5], [2, k, [1]], [3, [101]], [2, k, [2]], [1, k, 9]] + tail,
             ]
         for cs in fixed:
             add(sid, 3, cs)
@@ -860,7 +870,7 @@ def c19_compile(cases):
 pub struct Mini {
     #[stack(exec)]
     pub code: Stack<PushProgram>,
-    #[stack(instruction_name = PushInstruction::push_int)]
+    #[stack(ignore_doctests, instruction_name = PushInstruction::push_int)]
     pub numbers: Stack<i64>,
     #[stack(builder_name = flag, instruction_name = PushInstruction::push_bool)]
     pub switches: Stack<bool>,
@@ -906,7 +916,7 @@ pub struct Mini {
 def c19_run_override(pid, inputs, tag):
     from driver_main import run_inputs, Lock
     obs = [None] * len(inputs); valid = [True] * len(inputs)
-    i0 = [i for i, x in enumerate(inputs) if x[0] == 0]
+    i0 = [i for i, x in enumerate(inputs) if x[0] in (0, 2)]
     i1 = [i for i, x in enumerate(inputs) if x[0] == 1]
     if i0:
         o, v = run_inputs(pid, [inputs[i] for i in i0], tag=tag)
@@ -942,6 +952,8 @@ def c19_calls(cs):
     return '.'.join(out)
 
 def c19_describe(inp, obs):
+    if inp[0] == 2:
+        return 'which builder types are Default (method-resolution probe); observed [start state, sizes+program+limit, everything loaded, PushState itself]'
     if inp[0] == 1:
         return 'compile probe (%s): builder().%s ; observed [1] = rustc accepts it, [0] = rejected' % ('PushState' if inp[3] == 0 else 'Mini', c19_calls(inp[2]))
     return 'run (%s): builder().%s ; observed [0, exec top-first, exec max, [[stack, max]..], step limit, [[name, stack, value]..]] or [1] = overflow error' % ('PushState' if inp[1] == 0 else 'Mini', c19_calls(inp[3]))
@@ -950,8 +962,8 @@ PROPS['C19'] = dict(
     corr='CorrC19', judge='(judge_cases judge)', gen_extra=c19_gen_extra, run_override=c19_run_override, case_of=c19_case_of,
     coq_targets=['theories/Props/C19.vo', 'theories/Corr/CorrC19.vo'],
     describe=c19_describe, no_shrink=True, nontrivial=lambda i, o: True,
-    classify=lambda i, o: 'compile-probe' if i[0] == 1 else 'built-state',
-    bucket=lambda i, o: ['kind=%s' % ('compile-probe' if i[0] == 1 else 'run'), 'struct=%s' % ('PushState' if (i[3] if i[0] == 1 else i[1]) == 0 else 'Mini'),
+    classify=lambda i, o: 'compile-probe' if i[0] == 1 else 'default-probe' if i[0] == 2 else 'built-state',
+    bucket=lambda i, o: ['kind=default-probe'] if i[0] == 2 else ['kind=%s' % ('compile-probe' if i[0] == 1 else 'run'), 'struct=%s' % ('PushState' if (i[3] if i[0] == 1 else i[1]) == 0 else 'Mini'),
                          'outcome=%s' % (o if i[0] == 1 else ('overflow' if o == [1] else 'built'))],
     cov_extra=lambda inputs, obs, verdicts: dict(compile_probes=C19_PROBE['n'], rustc_error_codes=C19_PROBE['codes']),
     rule='(run) 200 compiled-in well-typed builder call sequences - 140 on PushState, 60 on a second struct the macro is applied to in the harness (other field names, builder_name / instruction_name options, two value stacks) - with per-stack and global sizes in every legal order, repeated value loads, programs, inputs declared in various orders and re-declared, step limits: stack contents (top first), maximum sizes, step limit, the program order on the exec stack and the resolution of every declared input are compared with Builder.brun in coqc, as is the overflow error; the derived accessors are exercised on PushState through HasStack. (compile) a fixed set of about 130 sequences (each also cut off right after the call in question) isolating each rule of the type-state (a size change after a load with nothing else loaded - for the exec stack after a program / after the decision for no program, for every value stack after values -, each required step left out, a second program decision) next to their well-typed neighbours, plus 25 (quick) / 150 (thorough) random well-typed sequences and their ill-typed neighbours (each required step omitted, a resize after a load, values before any size, a second program decision, a global size after data, no build) and raw random sequences, each compiled as its own binary against the current tree with cargo check: rustc accepts it <=> Builder.typed.',
